@@ -8,7 +8,7 @@ PROP = 'C19'
 LEVEL = 'exploration'
 RULE = ('random walks over the global param time (forward/backward/repeated jumps, int and Fraction times) on 2-4 '
         'instances whose Dynamic/Number parameters hold numbergen generators (UniformRandom, NormalRandom, Choice, '
-        'UniformRandomInt, ScaledTime and +,*,abs compositions, TimeSampledFn with period/offset, generators that raise at some '
+        'UniformRandomInt, UniformRandomOffset, VonMisesRandom, ScaledTime, BoxCar, SquareWave, ExponentialDecay, BoundedNumber and +,*,abs compositions, TimeSampledFn with period/offset, generators that raise at some '
         'times (1/ScaledTime, a plain callable); equal and different names/seeds, set at class and '
         'instance level), interleaved with reads, inspect_value, force_new_dynamic_value, nested and raising time '
         'contexts and _state_push/_state_pop; every read is compared with a table (spec, time) -> first value seen (or "raises"), '
@@ -74,6 +74,18 @@ def make_gen(ng, spec):
         return ng.Choice(name=spec[1], seed=spec[2], choices=list(spec[3]), time_dependent=True)
     if kind == 'randint':
         return ng.UniformRandomInt(name=spec[1], seed=spec[2], lbound=spec[3], ubound=spec[3] + spec[4], time_dependent=True)
+    if kind == 'offset':
+        return ng.UniformRandomOffset(name=spec[1], seed=spec[2], mean=spec[3], range=spec[4], time_dependent=True)
+    if kind == 'vonmises':
+        return ng.VonMisesRandom(name=spec[1], seed=spec[2], mu=spec[3], kappa=spec[4], time_dependent=True)
+    if kind == 'boxcar':
+        return ng.BoxCar(onset=spec[1], duration=spec[2])
+    if kind == 'square':
+        return ng.SquareWave(onset=spec[1], duration=spec[2], off_duration=spec[3])
+    if kind == 'decay':
+        return ng.ExponentialDecay(starting_value=spec[1], ending_value=spec[2], time_constant=spec[3])
+    if kind == 'bounded':
+        return ng.BoundedNumber(generator=make_gen(ng, spec[1]), bounds=spec[2])
     if kind == 'scaled':
         return ng.ScaledTime(factor=spec[1])
     if kind == 'add':
@@ -112,6 +124,20 @@ def gen_spec(rng, depth=0, frac=False):
         if k == 'mulc':
             return ('mulc', gen_spec(rng, depth + 1), rng.choice([2, -3, 0.5]))
         return ('abs', gen_spec(rng, depth + 1))
+    if c < 0.3:
+        k = rng.randrange(6)
+        if k == 0:
+            return ('offset', name, seed, rng.choice([0.0, 5.0]), rng.choice([1.0, 10.0]))
+        if k == 1:
+            return ('vonmises', name, seed, rng.choice([0.0, 1.5]), rng.choice([1.0, 4.0]))
+        if k == 2:
+            return ('boxcar', rng.choice([0, 2, -1]), rng.choice([None, 1, 3]))
+        if k == 3:
+            return ('square', rng.choice([0, 1, -2]), rng.choice([1, 2]), rng.choice([None, 1, 3]))
+        if k == 4:
+            return ('decay', rng.choice([1.0, 5.0]), rng.choice([0.0, -1.0]), rng.choice([10, 2.5]))
+        if depth < 2:
+            return ('bounded', gen_spec(rng, depth + 1), rng.choice([(None, None), (0.2, None), (None, 0.5), (-1, 1)]))
     if c < 0.45:
         return ('uniform', name, seed, rng.choice([0.0, -5.0, 10.0]), rng.choice([1.0, 100.0]))
     if c < 0.6:
